@@ -588,7 +588,7 @@ def random_grammars(seed, want, lalrpop, gdir, env):
 
 def run_gen_unit(root, repo, us, prop, tier, seed, work):
     r = dict(unit="native/gen", kind="native", status="undecided", reason="", failed=[], obligations=0, discharged=0,
-             functions=["generated <X>Parser::parse for 16 grammar variants (lane table / LALR / LR(1); table-driven / recursive ascent)"],
+             functions=["generated <X>Parser::parse of every grammar variant in units/gen/unit.json (lane table / LALR / LR(1); table-driven / recursive ascent), of the seeded random grammars and lexer grammars"],
              assumptions=[], notes=[], bounded=True, bounds="", wall_s=0.0, solver_ms=0, cfg={}, checker_cmd="", samples=[],
              guards={}, evaluations=0, distinct_nontrivial=0)
     t0 = time.time()
